@@ -2,6 +2,8 @@
 
 An abstract program is the `prog` of spec/PassLoop.tla: a list of items
   {k:def,l,al} {k:abs,l,w} {k:var,l} {k:rel,l} {k:fill,n} {k:ins} {k:equ,l,l2,d}
+  {k:labs,l,t,w,df} {k:lvar,l,t} {k:lrel,l,t}: reference statement with label l ("-": none) on its own line and
+  operand t (a label, possibly l itself, or "*" = the PC symbol; df: operand is t - l)
 A layout is a list (one entry per item) of {a: address, n: size, p: padding bytes in front, v: value encoded}.
 Nothing in here judges: the decoded layout goes to TLC (PassLoop_Obs), which evaluates the declarative
 predicate Valid of the specification on it.
@@ -26,8 +28,9 @@ class Undecodable(Exception):
 class Dialect:
     """table-driven: how an item is written, and which bytes of its encoding hold the operand"""
 
-    def __init__(self, name, cls, cpu, be, pads, lines, var, rel, fill, org, hexfmt):
+    def __init__(self, name, cls, cpu, be, pads, lines, var, rel, fill, org, hexfmt, pc="*", nop=(0x4E, 0x71)):
         self.name, self.cls, self.cpu, self.be, self.pads = name, cls, cpu, be, pads
+        self.pc, self.nop = pc, nop     # spelling of the PC symbol; bytes of the operand-less instruction
         self.lines = lines      # item kind -> list of alternative templates
         self.var = var          # mnemonic -> (short opcode, long opcode)
         self.rel = rel          # mnemonic -> opcode
@@ -62,12 +65,32 @@ def _mk():
                         {"defb": "db\t0c7h,%s", "abs2": "dw\t%s"},
                         {"jmp": (0xEB, 0xE9)},
                         {"jnz": 0x75, "jz": 0x74, "jc": 0x72, "loop": 0xE2},
-                        "db\t%d dup (0eeh)", "org\t0%xh", "0%02xh")
+                        "db\t%d dup (0eeh)", "org\t0%xh", "0%02xh", pc="$")
+    # word-padded, little-endian, not Motorola: data words and nop only (its jumps have one size)
+    d["msp430"] = Dialect("msp430", "68k", "msp430", False, True,
+                          {"defb": ".byte\t0c7h,%s", "defw": ".word\t0%02xc7h", "abs2": ".word\t%s", "ins": "nop"},
+                          {}, {}, None, "org\t0%xh", "0%02xh", pc="$", nop=(0x03, 0x43))
     return d
 
 
 DIALECTS = _mk()
-CLASSES = {"68k": ["68000"], "abs": ["6809", "68hc11", "6502"], "86": ["8086"]}
+CLASSES = {"68k": ["68000"], "abs": ["6809", "68hc11", "6502"], "86": ["8086"],
+           "self68k": ["68000", "msp430"], "selfabs": ["6809", "68hc11", "6502"], "self86": ["8086"]}
+BASECLASS = {"self68k": "68k", "selfabs": "abs", "self86": "86"}
+REFKINDS = ("abs", "var", "rel", "labs", "lvar", "lrel")
+
+
+def supports(dia, prog):
+    """can this dialect express the program (msp430: data words of width 2 and nop only)"""
+    D = DIALECTS[dia]
+    for it in prog:
+        if it["k"] in ("var", "lvar") and not D.var:
+            return False
+        if it["k"] in ("rel", "lrel") and not D.rel:
+            return False
+        if it["k"] in ("abs", "labs") and ("abs%d" % it["w"]) not in D.lines:
+            return False
+    return True
 
 
 def def_ids(prog):
@@ -82,23 +105,42 @@ def render(prog, org, dia, r):
     if org:
         lines.append("\t" + D.org % org)
     choice = []
+
+    def labelled(label, body):
+        form = r.randrange(3)
+        if form == 0:
+            lines.append("%s:\t%s" % (label, body))
+        elif form == 1:
+            lines.append("%s:" % label)           # label alone: LabelValue survives the empty statement
+            if r.random() < 0.3:
+                lines.append("; comment between label and code")
+            lines.append("\t" + body)
+        else:
+            lines.append("%s\t%s" % (label, body))  # without colon, first column
+
     for j, it in enumerate(prog, 1):
         k = it["k"]
+        if k in ("labs", "lvar", "lrel"):
+            opnd = D.pc if it["t"] == "*" else it["t"]
+            if k == "labs" and it.get("df"):
+                opnd = "%s-%s" % (it["t"], it["l"])
+            if k == "labs":
+                body, mn = D.lines["abs%d" % it["w"]] % opnd, None
+            else:
+                mn = r.choice(sorted(D.var if k == "lvar" else D.rel))
+                body = "%s\t%s" % (mn, opnd)
+            if it["l"] == "-":
+                lines.append("\t" + body)
+            else:
+                labelled(it["l"], body)
+            choice.append(mn)
+            continue
         if k == "def":
             if it.get("al"):
                 body = D.lines["defw"] % j
             else:
                 body = D.lines["defb"] % D.hx(j)
-            form = r.randrange(3)
-            if form == 0:
-                lines.append("%s:\t%s" % (it["l"], body))
-            elif form == 1:
-                lines.append("%s:" % it["l"])           # label alone: LabelValue survives the empty statement
-                if r.random() < 0.3:
-                    lines.append("; comment between label and code")
-                lines.append("\t" + body)
-            else:
-                lines.append("%s\t%s" % (it["l"], body))  # without colon, first column
+            labelled(it["l"], body)
             choice.append(None)
         elif k == "abs":
             lines.append("\t" + D.lines["abs%d" % it["w"]] % it["l"])
@@ -112,7 +154,7 @@ def render(prog, org, dia, r):
             lines.append("\t%s\t%s" % (mn, it["l"]))
             choice.append(mn)
         elif k == "fill":
-            lines.append("\t" + D.fill % it["n"])
+            lines.append("\t" + (D.fill % it["n"] if D.fill else ".byte\t" + ",".join(["0eeh"] * it["n"])))
             choice.append(None)
         elif k == "ins":
             lines.append("\t" + D.lines["ins"])
@@ -161,7 +203,7 @@ def decode(prog, org, dia, choice, img):
     for j, it in enumerate(prog, 1):
         k = it["k"]
         pad = 0
-        aligned = D.pads and (k in ("abs", "var", "rel", "ins") or (k == "def" and it.get("al")))
+        aligned = D.pads and (k in REFKINDS or k == "ins" or (k == "def" and it.get("al")))
         if aligned and cur % 2 == 1:
             if byte(cur) != 0:
                 raise Undecodable("item %d: expected a padding byte at odd address %d" % (j, cur))
@@ -180,15 +222,17 @@ def decode(prog, org, dia, choice, img):
                 if byte(a + x) != FILL:
                     raise Undecodable("item %d: fill byte expected at %d" % (j, a + x))
         elif k == "ins":
-            if word(a) != 0x4E71:
+            if (byte(a), byte(a + 1)) != D.nop:
                 raise Undecodable("item %d: nop expected at %d" % (j, a))
             n = 2
-        elif k == "abs":
+        elif k in ("abs", "labs"):
             n = it["w"]
             v = word(a, n)
+            if k == "labs" and it.get("df") and v >= 1 << (8 * n - 1):
+                v -= 1 << (8 * n)            # a difference of two addresses is a signed quantity
         elif k == "equ":
             n = 0
-        elif k == "var":
+        elif k in ("var", "lvar"):
             so, lo = D.var[choice[j - 1]]
             op = byte(a)
             if D.cls == "68k":
@@ -214,7 +258,7 @@ def decode(prog, org, dia, choice, img):
                     n, v = 3, word(a + 1)
                 else:
                     raise Undecodable("item %d: opcode %02x at %d is not %s" % (j, op, a, choice[j - 1]))
-        elif k == "rel":
+        elif k in ("rel", "lrel"):
             op = byte(a)
             if D.cls == "68k" and word(a) == 0x4E71:
                 n, v = 2, a + 2
